@@ -137,11 +137,14 @@ def _roots(instrs, tstack):
 
 
 _TIMEOUT = object()
+_WATCHDOG = object()
 
 
-def _call_in_child(fn, args, timeout):
-    """run fn(*args) in a forked child with CPU/memory limits; returns its int result,
-    _TIMEOUT, or raises RuntimeError(child exception name)"""
+def _call_in_child(fn, args, cpu_seconds, wall_watchdog=180.0):
+    """run fn(*args) in a forked child under a CPU-time limit (RLIMIT_CPU, so that machine load
+    does not change the verdict) and a memory limit; returns its int result, _TIMEOUT when the CPU
+    limit was hit, _WATCHDOG when the generous wall-clock watchdog fired (inconclusive), or raises
+    RuntimeError(child exception name)"""
     import os
     import select
     import resource
@@ -152,6 +155,8 @@ def _call_in_child(fn, args, timeout):
         try:
             os.close(r)
             resource.setrlimit(resource.RLIMIT_AS, (3 << 30, 3 << 30))
+            c = int(cpu_seconds)
+            resource.setrlimit(resource.RLIMIT_CPU, (c, c + 1))
             try:
                 out = "ok:" + repr(fn(*args))
             except BaseException as e:  # noqa
@@ -160,23 +165,28 @@ def _call_in_child(fn, args, timeout):
         finally:
             os._exit(0)
     os.close(w)
+    status = 0
+    watchdog = False
+    data = b""
     try:
-        ready, _, _ = select.select([r], [], [], timeout)
+        ready, _, _ = select.select([r], [], [], wall_watchdog)
         if not ready:
             os.kill(pid, signal.SIGKILL)
-            return _TIMEOUT
-        data = b""
-        while True:
-            chunk = os.read(r, 1 << 16)
-            if not chunk:
-                break
-            data += chunk
+            watchdog = True
+        else:
+            while True:
+                chunk = os.read(r, 1 << 16)
+                if not chunk:
+                    break
+                data += chunk
     finally:
         os.close(r)
         try:
-            os.waitpid(pid, 0)
+            _, status = os.waitpid(pid, 0)
         except Exception:
             pass
+    if watchdog:
+        return _WATCHDOG
     txt = data.decode()
     if txt.startswith("ok:"):
         v = txt[3:]
@@ -184,7 +194,9 @@ def _call_in_child(fn, args, timeout):
     if txt.startswith("exc:"):
         raise {"ZeroDivisionError": ZeroDivisionError, "MemoryError": MemoryError,
                "OverflowError": OverflowError}.get(txt[4:], RuntimeError)(txt[4:])
-    return _TIMEOUT
+    if os.WIFSIGNALED(status) and os.WTERMSIG(status) in (signal.SIGXCPU, signal.SIGKILL):
+        return _TIMEOUT
+    return _WATCHDOG
 
 
 # ------------------------------------------------------------------ hooks
@@ -214,7 +226,10 @@ def install():
         try:
             if risky:
                 _count("evaluate_expression_forked")
-                r = _call_in_child(orig_eval, (funct, val0, val1), 3.0)
+                r = _call_in_child(orig_eval, (funct, val0, val1), 3)
+                if r is _WATCHDOG:
+                    _count("evaluate_expression_fork_watchdog")
+                    raise AbortCase("forked fold: wall-clock watchdog (inconclusive)")
                 if r is _TIMEOUT:
                     _log("fold %s nonterminating" % funct, funct=funct, val0=hex(val0), val1=hex(val1))
                     raise AbortCase("fold does not terminate")
